@@ -153,7 +153,7 @@ def run(prog, chk):
     chk.rule('R12.6', 'built-in dispatch subscripts args[k]: arity guaranteed (size guard, or analyser reserves gate names and checks arity)')
     chk.rule('R12.7', 'Object-owning containers are never shrunk in place where a deleter can re-enter (detach the element first)')
     chk.rule('R12.12', 'a vector subscripted by a loop counter is in range: bounded by its own size, an equal-length vector, or the size it was given')
-    _rule_loop_subscripts(prog, chk, R)
+    chk._loop_sub_ids = _rule_loop_subscripts(prog, chk, R)
     chk.rule('R12.8', 'a slot that may hold the last reference to an object is overwritten only after its old value was moved out')
     ev = R.ev
     execute = R.ev_method('execute')
@@ -360,6 +360,8 @@ def _rule_builtin_args(prog, chk, R):
            'the predeclaration loop must reject a user function whose name is a built-in gate (the evaluator dispatches gates by name before user functions)',
            key='gate-names-reserved')
     chk.ob('R12.6', analyse, analyse.ln, arity, 'calls are checked against the callee\'s parameter count', key='call-arity-checked')
+    chk.rule('R12.13', 'every other vector subscript of the evaluator is in range where it is evaluated (bound test, grow-to-fit, validating callee, name→offset map, object storage)')
+    _rule_other_subscripts(prog, chk, R, set(chk._loop_sub_ids) | {id(n_) for n_, _ in sites})
 
 
 def _rule_nullable_links(prog, chk, R):
@@ -744,6 +746,15 @@ def _no_escape(prog, chk, f, throwing, what):
     chk.extra.setdefault('noexcept_context_throwing_calls', {})[what] = cnt
 
 
+def _value_array_subscript(x):
+    """a computed subscript of one of Value's array members: decided by the value-array rule (C07's R07.4, run here as part of R12.12)"""
+    b = SX.strip(x.get('base'))
+    i = SX.strip(x.get('i'))
+    while SX.is_node(i) and i.get('k') == 'cast':
+        i = SX.strip(i['e'])
+    return SX.is_node(b) and b.get('k') == 'member' and b.get('name', '').endswith('Array') and 'callee' in x and not (SX.is_node(i) and i.get('k') == 'int')
+
+
 def _rule_loop_subscripts(prog, chk, R):
     """R12.12 — a std::vector subscripted by the counter of a counted loop is in range: the loop condition (or a test inside the
     body) bounds the counter by that vector's size; or by the size of a vector a dominating test makes equally long; or by the
@@ -776,6 +787,7 @@ def _rule_loop_subscripts(prog, chk, R):
                             other.append((f, x))
         return out, other
     n = 0
+    handled = set()
     for f in fns:
         loops = []
         for s in SX.walk(f.body, into_lambdas=False):
@@ -787,12 +799,13 @@ def _rule_loop_subscripts(prog, chk, R):
         for lp in loops:
             v = lp['init']['d'][0]
             subs = [x for x in SX.walk(lp['body'], into_lambdas=False) if x['k'] == 'index' and (x.get('bt') or '').replace('const ', '').startswith('std::vector<')
-                    and SX.is_node(p13(x['i'])) and p13(x['i']).get('k') == 'ref' and p13(x['i']).get('id') == v['id']]
+                    and SX.is_node(p13(x['i'])) and p13(x['i']).get('k') == 'ref' and p13(x['i']).get('id') == v['id'] and not _value_array_subscript(x)]
             if not subs:
                 continue
             g = g or prog.cfg(f)
             for x in subs:
                 n += 1
+                handled.add(id(x))
                 V = SX.show(p13(x['base']))
                 node = _cfg_node_containing(g, x)
                 if node is None:
@@ -860,4 +873,268 @@ def _rule_loop_subscripts(prog, chk, R):
                                 break
                 chk.ob('R12.12', f, x.get('ln', f.ln), ok, 'subscript %s by the loop counter: %s (an index past the end reads or writes outside the vector: the interpreter dies from a signal)' % (
                     SX.show(x)[:40], why), key='loop-subscript:%s:%s' % (f.short, SX.show(x)[:30]))
-    chk.count('vector subscripts by a loop counter', n, 50)
+    chk.count('vector subscripts by a loop counter', n, 20)
+    # computed subscripts of the arrays inside a Value (element reads and writes, element-wise operators, array initialisation) have
+    # their own, stronger rule — lower bound too, per-kind length functions, helpers decided at their call sites: C07's R07.4, run here
+    from .C07 import value_array_subscripts
+    value_array_subscripts(prog, chk, R, 'R12.12')
+    return handled
+
+
+def _rule_other_subscripts(prog, chk, R, skip_ids):
+    """R12.13 — every other std::vector subscript of the evaluator (not by a loop counter: R12.12; not of the built-in argument
+    vector: R12.6) is in range where it is evaluated: a dominating bound test or size test (the analyser's rule, C13 R13.3); a
+    bound test in a left operand of `&&` of the same condition; grow-to-fit (`if (i >= v.size()) v.resize(i + 1);` before it);
+    validation by a callee that throws unless the index is in range; an index read from the class's name→offset map under
+    `it != map.end()`, where every entry of the map is the vector's size at the moment the element is appended; a field offset
+    into an object's storage, which is sized to the class's field table when the object is created."""
+    from .C13 import subscript_in_range, _cfg_node_containing, _bound_test, _lin, _peel as p13
+    from ..kernels import enclosing_stmts
+    evfile = R.ev_method('execute').file
+    fns = [f for f in prog.functions if f.body and f.file == evfile]
+
+    def conj(c, pol):
+        c = SX.strip(c)
+        if SX.is_node(c) and c.get('k') == 'un' and c.get('op') == '!':
+            return conj(c['e'], not pol)
+        if pol and SX.is_node(c) and c.get('k') == 'bin' and c['op'] == '&&':
+            return conj(c['l'], True) + conj(c['r'], True)
+        if not pol and SX.is_node(c) and c.get('k') == 'bin' and c['op'] == '||':
+            return conj(c['l'], False) + conj(c['r'], False)
+        return [(c, pol)]
+
+    def left_facts(e, target):
+        e = SX.strip(e)
+        if SX.is_node(e) and e.get('k') == 'bin' and e['op'] == '&&':
+            if any(y is target for y in SX.walk(e['r'])):
+                return conj(e['l'], True) + left_facts(e['r'], target)
+            if any(y is target for y in SX.walk(e['l'])):
+                return left_facts(e['l'], target)
+        if SX.is_node(e) and e.get('k') == 'un' and e.get('op') == '!':
+            return []
+        return []
+
+    def earlier_stmts(f, x):
+        """statements that precede the statement holding x in each enclosing block, nearest first"""
+        chain = enclosing_stmts(f.body, x)
+        if x.get('k') in ('forrange', 'for', 'while', 'if', 'block', 'expr', 'decls') and (not chain or chain[-1] is not x):
+            chain = chain + [x]
+        out = []
+        for d in range(len(chain) - 1, -1, -1):
+            blk = chain[d]
+            if blk.get('k') != 'block':
+                continue
+            child = chain[d + 1] if d + 1 < len(chain) else None
+            pos = [i for i, s in enumerate(blk['body']) if s is child]
+            if pos:
+                out.extend(reversed(blk['body'][:pos[0]]))
+        return out
+
+    def written(stmts, name):
+        for s in stmts:
+            for y in SX.walk(s, into_lambdas=False):
+                w = SX.write_target(y)
+                if w and SX.show(SX.strip(w[0])) == name:
+                    return True
+        return False
+
+    # premise of the index-map idiom, per (index member M, table member F): every entry M[k] is F.size() at the append
+    def map_premise(M, F):
+        sites = 0
+        for f in fns:
+            for blk in SX.walk(f.body, into_lambdas=False):
+                if blk.get('k') != 'block':
+                    continue
+                for i, st in enumerate(blk['body']):
+                    e = st.get('e') if st.get('k') == 'expr' else None
+                    w = SX.write_target(e) if SX.is_node(e) else None
+                    if not w:
+                        continue
+                    l = SX.strip(w[0])
+                    # M[key] = v
+                    if SX.is_node(l) and l.get('k') in ('opcall', 'index') and any(y.get('k') == 'member' and y.get('name') == M for y in SX.walk(l)) and \
+                            not (l.get('k') == 'member'):
+                        tgt = [y for y in SX.walk(l) if y.get('k') == 'member' and y.get('name') == M][0]
+                        root = SX.show(p13(tgt['base']))
+                        v = SX.show(p13(w[1]))
+                        prev = blk['body'][i - 1] if i else None
+                        nxt = blk['body'][i + 1] if i + 1 < len(blk['body']) else None
+                        pw = SX.write_target(prev.get('e')) if prev and prev.get('k') == 'expr' else None
+                        ok1 = bool(pw) and SX.show(SX.strip(pw[0])) == v and SX.show(p13(pw[1])).replace(' ', '') == ('%s->%s.size()' % (root, F)).replace(' ', '')
+                        ne = p13(nxt.get('e')) if nxt and nxt.get('k') == 'expr' else None
+                        ok2 = SX.is_node(ne) and ne.get('k') == 'mcall' and SX.short(ne.get('callee', '')) in ('push_back', 'emplace_back') and \
+                            SX.show(p13(ne.get('obj'))).replace(' ', '') == ('%s->%s' % (root, F)).replace(' ', '')
+                        if not (ok1 and ok2):
+                            return None
+                        sites += 1
+                    # whole-map copy  X->M = Y->M  needs  X->F = Y->F  next to it
+                    if SX.is_node(l) and l.get('k') == 'member' and l.get('name') == M:
+                        r = p13(w[1])
+                        if not (SX.is_node(r) and r.get('k') == 'member' and r.get('name') == M):
+                            return None
+                        xl, xr = SX.show(p13(l['base'])), SX.show(p13(r['base']))
+                        paired = False
+                        for o in blk['body'][max(0, i - 2):i + 3]:
+                            ow = SX.write_target(o.get('e')) if o.get('k') == 'expr' else None
+                            if ow and SX.is_node(SX.strip(ow[0])) and SX.strip(ow[0]).get('k') == 'member' and SX.strip(ow[0]).get('name') == F and \
+                                    SX.show(p13(SX.strip(ow[0])['base'])) == xl and SX.is_node(p13(ow[1])) and p13(ow[1]).get('name') == F and SX.show(p13(p13(ow[1])['base'])) == xr:
+                                paired = True
+                        if not paired:
+                            return None
+                        sites += 1
+            # the table never shrinks
+            for y in SX.walk(f.body, into_lambdas=False):
+                if y.get('k') == 'mcall' and not y.get('constm', True) and SX.short(y.get('callee', '')) in ('pop_back', 'erase', 'clear', 'resize') and \
+                        SX.is_node(p13(y.get('obj'))) and p13(y['obj']).get('k') == 'member' and p13(y['obj']).get('name') == F:
+                    return None
+        return sites or None
+    memo = {}
+    n = 0
+    for f in fns:
+        subs = [x for x in SX.walk(f.body, into_lambdas=False) if x['k'] == 'index' and (x.get('bt') or '').replace('const ', '').startswith('std::vector<') and id(x) not in skip_ids
+                and not _value_array_subscript(x)]
+        if not subs:
+            continue
+        g = prog.cfg(f)
+        for x in subs:
+            n += 1
+            ok, why = subscript_in_range(f, g, x)
+            V = SX.show(p13(x['base']))
+            base, off = _lin(x['i'])
+            node = _cfg_node_containing(g, x)
+            if not ok and base is not None and off == 0 and node is not None:
+                # the test was made on an unmodified local copy of the index expression (`int q = v.qubit; if (q < …) … [v.qubit]`)
+                for d in SX.walk(f.body, into_lambdas=False):
+                    if d['k'] == 'var' and SX.is_node(d.get('init')) and SX.show(p13(d['init'])) == base and not d.get('isref') and \
+                            not written([f.body], d['name']):
+                        for ce, pol, ed in g.guards(node):
+                            for c_, p_ in conj(ce, pol):
+                                if _bound_test(c_, p_, d['name'], V) == 0 and not written([f.body], base):
+                                    ok, why = True, 'bounded through the local copy %s of %s' % (d['name'], base)
+            if not ok and base is not None and node is not None and SX.is_node(node.e):
+                # a left operand of && in the same condition
+                for top in SX.walk(node.e if node.kind != 'decl' else (node.e.get('init') or {}), into_lambdas=False):
+                    if top.get('k') == 'bin' and top.get('op') == '&&' and any(y is x for y in SX.walk(top)):
+                        for c_, p_ in left_facts(top, x):
+                            r_ = _bound_test(c_, p_, base, V)
+                            if r_ is not None and r_ >= off:
+                                ok, why = True, 'bounded by the left operand %s of the same condition' % SX.show(c_)[:40]
+                        break
+            if not ok and base is not None and off == 0:
+                before = earlier_stmts(f, x)
+                for k_, st in enumerate(before):
+                    if written(before[:k_], base):
+                        break
+                    # grow-to-fit
+                    if st.get('k') == 'if' and not st.get('e'):
+                        r_ = _bound_test(st['c'], False, base, V)      # condition false ⇒ base < V.size()
+                        t = st['t']['body'] if SX.is_node(st.get('t')) and st['t'].get('k') == 'block' else [st.get('t')]
+                        te = p13(t[0].get('e')) if len(t) == 1 and SX.is_node(t[0]) and t[0].get('k') == 'expr' else None
+                        if r_ == 0 and SX.is_node(te) and te.get('k') == 'mcall' and SX.short(te.get('callee', '')) == 'resize' and SX.show(p13(te.get('obj'))) == V:
+                            a0 = SX.real_args(te)[0]
+                            b2, o2 = _lin(a0)
+                            if b2 == base and o2 >= 1:
+                                ok, why = True, 'the vector is grown to %s + %d first when the index is past its end' % (base, o2)
+                                break
+                    # validated by a callee that throws unless the index is in range
+                    e = p13(st.get('e')) if st.get('k') == 'expr' else None
+                    if SX.is_node(e) and e.get('k') == 'mcall' and prog.by_name.get(e.get('callee')):
+                        args = SX.real_args(e)
+                        pos = [i_ for i_, a in enumerate(args) if SX.show(p13(a)) == base]
+                        cal = prog.by_name[e['callee']][0]
+                        if pos and cal.body and len(cal.params) > pos[0]:
+                            pn = cal.params[pos[0]]['name']
+                            first = cal.body['body'][0] if cal.body.get('k') == 'block' and cal.body['body'] else None
+                            if SX.is_node(first) and first.get('k') == 'if' and any(y['k'] == 'throw' for y in SX.walk(first['t'], into_lambdas=False)) and \
+                                    not any(y['k'] in ('return',) for y in SX.walk(first['t'], into_lambdas=False)):
+                                for c_, p_ in conj(first['c'], False):
+                                    r_ = _bound_test(c_, p_, pn, V)
+                                    if r_ == 0:
+                                        ok, why = True, '%s throws unless %s is below %s.size()' % (cal.short, base, V)
+                        if ok:
+                            break
+            if not ok and base is not None and off == 0 and node is not None:
+                # every element of the range was validated by an earlier full loop that clears a flag on the first failure
+                ixr = p13(x['i'])
+                l2 = [l for l in SX.walk(f.body, into_lambdas=False) if l.get('k') == 'forrange' and SX.is_node(ixr) and l['var'].get('id') == ixr.get('id')]
+                if l2:
+                    RT = SX.show(p13(l2[0]['range']))
+                    for st in earlier_stmts(f, l2[0]):
+                        if st.get('k') == 'forrange' and SX.show(p13(st['range'])) == RT and not any(y['k'] in ('break', 'continue') for y in SX.walk(st['body'], into_lambdas=False)):
+                            b1 = st['body']['body'] if st['body'].get('k') == 'block' else [st['body']]
+                            if b1 and b1[0].get('k') == 'if':
+                                t1 = b1[0]['t']['body'] if SX.is_node(b1[0]['t']) and b1[0]['t'].get('k') == 'block' else [b1[0]['t']]
+                                leaves = bool(t1) and SX.is_node(t1[-1]) and t1[-1].get('k') in ('return', 'ireturn', 'throw') or \
+                                    (bool(t1) and SX.is_node(t1[-1]) and t1[-1].get('k') == 'expr' and SX.is_node(t1[-1].get('e')) and t1[-1]['e'].get('k') == 'throw')
+                                if leaves and any(_bound_test(c2, p2, st['var']['name'], V) == 0 for c2, p2 in conj(b1[0]['c'], False)):
+                                    ok, why = True, 'every element of %s was tested against %s.size() by an earlier loop that leaves on the first failure' % (RT, V)
+                    for ce, pol, ed in g.guards(node):
+                        for c_, p_ in conj(ce, pol):
+                            c0 = p13(c_)
+                            if not (p_ and SX.is_node(c0) and c0.get('k') == 'ref' and c0.get('t') == 'bool'):
+                                continue
+                            fd = [d for d in SX.walk(f.body, into_lambdas=False) if d['k'] == 'var' and d['id'] == c0['id']]
+                            if not fd or not (SX.is_node(p13(fd[0].get('init'))) and p13(fd[0]['init']).get('v') is True):
+                                continue
+                            clears = []
+                            for y in SX.walk(f.body, into_lambdas=False):
+                                w = SX.write_target(y)
+                                if not (w and SX.strip(w[0]).get('id') == c0['id']):
+                                    continue
+                                ch = enclosing_stmts(f.body, y)
+                                loops_ = [z for z in ch if z.get('k') in ('forrange', 'for', 'while')]
+                                ifs_ = [z for z in ch if z.get('k') == 'if']
+                                l1 = loops_[-1] if loops_ else None
+                                i_ = ifs_[-1] if ifs_ else None
+                                good = bool(l1) and bool(i_) and l1.get('k') == 'forrange' and l1 is not l2[0] and SX.show(p13(l1['range'])) == RT and \
+                                    p13(w[1]).get('v') is False and any(z is i_ for z in SX.walk(l1['body'], into_lambdas=False)) and \
+                                    any(z is y for z in SX.walk(i_['t'], into_lambdas=False)) and \
+                                    any(_bound_test(c2, p2, l1['var']['name'], V) == 0 for c2, p2 in conj(i_['c'], False))
+                                clears.append(good)
+                            other = [y for y in SX.walk(f.body, into_lambdas=False) for w in [SX.write_target(y)] if w and SX.strip(w[0]).get('id') == c0['id']]
+                            if clears and all(clears) and len(other) == len(clears):
+                                ok, why = True, 'every element of %s was tested against %s.size() by an earlier loop that clears %s on the first failure' % (RT, V, c0['name'])
+            if not ok:
+                # index read from the class's name→offset map
+                ix = p13(x['i'])
+                vb = p13(x['base'])
+                if SX.is_node(ix) and ix.get('k') == 'member' and ix.get('name') == 'second' and SX.is_node(vb) and vb.get('k') == 'member':
+                    it = p13(ix['base'])
+                    while SX.is_node(it) and it.get('k') == 'opcall' and it.get('op') in ('->', '*'):
+                        it = p13(it['args'][0])
+                    decl = [d for d in SX.walk(f.body, into_lambdas=False) if d['k'] == 'var' and SX.is_node(it) and d['id'] == it.get('id')]
+                    init = p13(decl[0].get('init')) if decl and SX.is_node(decl[0].get('init')) else None
+                    if SX.is_node(init) and init.get('k') == 'mcall' and SX.short(init.get('callee', '')) == 'find':
+                        mo = p13(init.get('obj'))
+                        if SX.is_node(mo) and mo.get('k') == 'member' and SX.show(p13(mo['base'])) == SX.show(p13(vb['base'])):
+                            def not_end(ce, pol):
+                                ce = SX.strip(ce)
+                                while SX.is_node(ce) and ce.get('k') == 'un' and ce.get('op') == '!':
+                                    ce, pol = SX.strip(ce['e']), not pol
+                                cp = SX.cmp_parts(ce)
+                                if not cp:
+                                    return False
+                                op = cp[0] if pol else {'==': '!=', '!=': '=='}.get(cp[0])
+                                txt = SX.show(ce)
+                                return op == '!=' and it.get('name') in txt and '.end()' in txt and mo['name'] in txt
+                            guard = any(not_end(ce, pol) for ce, pol, ed in g.guards(node)) if node is not None else False
+                            key = (mo['name'], vb['name'])
+                            if key not in memo:
+                                memo[key] = map_premise(*key)
+                            if guard and memo[key]:
+                                ok, why = True, 'the index is an entry of %s found under `!= end()`; every entry is %s.size() at the append that follows (%d sites), and the table never shrinks' % (
+                                    mo['name'], vb['name'], memo[key])
+            if not ok:
+                # a field's offset into the storage of an object
+                ix = p13(x['i'])
+                vb = p13(x['base'])
+                if SX.is_node(ix) and ix.get('k') == 'member' and ix.get('name') == 'offset' and SX.is_node(vb) and vb.get('k') == 'member' and vb.get('name') == 'fields' \
+                        and 'Object' in (p13(vb['base']).get('t') or ''):
+                    sized = [y for f2 in fns for y in SX.walk(f2.body, into_lambdas=True) if y.get('k') == 'mcall' and SX.short(y.get('callee', '')) in ('assign', 'resize') and
+                             SX.is_node(p13(y.get('obj'))) and p13(y['obj']).get('k') == 'member' and p13(y['obj'])['name'] == 'fields' and SX.real_args(y) and
+                             'instanceFields.size()' in SX.show(SX.real_args(y)[0])]
+                    if sized and memo.setdefault(('instanceFieldIndex', 'instanceFields'), map_premise('instanceFieldIndex', 'instanceFields')):
+                        ok, why = True, 'object storage is sized to the class\'s field table at creation (%d site) and a field\'s offset is its position in that table (base tables copied first: R12.10)' % len(sized)
+            chk.ob('R12.13', f, x.get('ln', f.ln), ok, 'subscript %s: %s (an index past the end reads or writes outside the vector: the interpreter dies from a signal)' % (
+                SX.show(x)[:40], why), key='subscript:%s:%s' % (f.short, SX.show(x)[:30]))
+    chk.count('other vector subscripts of the evaluator', n, 25)
